@@ -225,3 +225,17 @@ Proof.
   destruct (Z.ltb_spec n L), (Z.leb_spec L n), (Z.ltb_spec n (8 * q + 1)), (Z.leb_spec 57 n), (Z.ltb_spec n 65);
     try lia; simpl; rewrite ?orb_false_r; try reflexivity; destruct (Z.testbit h n); reflexivity.
 Qed.
+
+(* Remove moves the (short hash, hash-probe byte) PAIR of the first occupied slot 3-count into the freed slot, so every
+   remaining element keeps its own byte *)
+Lemma o2_remove_eq st sh hp idx : 0 <= Gen_O2.pvGetCount st sh hp <= 3 ->
+  Gen_O2.Remove st sh hp idx =
+    let c := Gen_O2.pvGetCount st sh hp in
+    if idx >=? 3 - c then
+      Ok (tt, upd st 1 (wrapU 8 (st 1 - 1)), upd (upd sh idx (sh (3 - c))) (3 - c) 128, upd hp idx (hp (3 - c)))
+    else Stuck.
+Proof.
+  intros Hc. unfold Gen_O2.Remove, Gen_O2.useHashCodePartGetter, Gen_O2.maxCount. cbv zeta.
+  rewrite (wrapU_small 64 (3 - _)) by (change (2 ^ 64) with 18446744073709551616; lia).
+  destruct (Z.geb_spec idx (3 - Gen_O2.pvGetCount st sh hp)); reflexivity.
+Qed.
